@@ -20,7 +20,7 @@ def guards(fn, cfg, T, b):
         if len(tgts) != 1:
             continue
         vs = [v for v, _ in reach]
-        cond = T.operand(t["op"])
+        cond = T.operand(t["op"], 0, (sb, "term"))
         if t.get("op_ty") == "bool":
             if vs == [0]:
                 truth = False
